@@ -88,7 +88,7 @@ pub fn run(tier: &str, seed: u64, out: &mut Out) {
             let mut g0 = TmplGroup::new();
             g0.add_script("e1", "exports.g = function(a){ return 'E1' + a }");
             g0.add_script("e2", "exports.g = function(a){ return 'E2' + a }");
-            let d0 = g0.add_tmpl("p", &src);
+            let d0 = { crate::util::note_input(&*src); g0.add_tmpl("p", &src) };
             let level0 = d0.iter().map(|d| d.kind.level() as u8).max().unwrap_or(0);
             let mut rounds = vec![];
             for mangle in [false, true] {
@@ -96,7 +96,7 @@ pub fn run(tier: &str, seed: u64, out: &mut Out) {
                 let mut g1 = TmplGroup::new();
                 g1.add_script("e1", "exports.g = function(a){ return 'E1' + a }");
                 g1.add_script("e2", "exports.g = function(a){ return 'E2' + a }");
-                let d1 = g1.add_tmpl("p", &s1);
+                let d1 = { crate::util::note_input(&*s1); g1.add_tmpl("p", &s1) };
                 let diags1: Vec<(String, u8)> = d1.iter().map(|d| (d.kind.to_string(), d.kind.level() as u8)).collect();
                 let s2 = print(&g1, "p", &s1, mangle);
                 let b1 = g1.get_tmpl_gen_object_groups().unwrap_or_default();
